@@ -100,7 +100,7 @@ def run(ctx):
                        f'(tombstoned rows would otherwise reappear)', [site(bd, c.bb)])
     ctx.floor(R2, n, 2, 'DiskRowset::iter call sites in compaction and scan')
     # nobody else opens a row-set iterator
-    others = [c for c in prog.calls_matching(suffix('DiskRowset::iter')) if (c.fn or '').endswith('DiskRowset::iter')
+    others = [c for c in prog.calls_matching_all(suffix('DiskRowset::iter')) if (c.fn or '').endswith('DiskRowset::iter')
               and c.body.name not in (COMPACT, SCAN)]
     ctx.ob(R2, 'who:DiskRowset::iter', not others, f'other callers of DiskRowset::iter: {[c.body.name for c in others]}',
            [site(c.body, c.bb) for c in others])
